@@ -21,7 +21,7 @@ func init() {
 
 var c02Contexts = []string{"body", "action", "invariant", "custom-inner", "custom-outer", "cleanup-body", "cleanup-action", "cleanup-custom", "goroutine"}
 var c02Positions = []string{"first", "middle", "last", "after-skips", "late-step"}
-var c02Variants = []string{"plain", "then-skip", "then-invalid-draw", "skip-in-cleanup", "skip-in-later-cleanup", "deferred-skip"}
+var c02Variants = []string{"plain", "then-skip", "then-invalid-draw", "skip-in-cleanup", "skip-in-later-cleanup", "skip-in-earlier-cleanup", "deferred-skip", "body-skip"}
 
 func c02Scenarios(cfg runCfg) []Scenario {
 	var out []Scenario
@@ -45,12 +45,18 @@ func c02Scenarios(cfg runCfg) []Scenario {
 								continue
 							}
 						case "skip-in-cleanup":
-							if ctx != "body" && ctx != "action" {
+							if ctx != "body" && ctx != "action" && ctx != "custom-inner" {
 								continue
 							}
-						case "skip-in-later-cleanup":
-							// the failure is signalled through a T method in one cleanup, a cleanup that runs later skips
-							if kindPanic(k) || (ctx != "cleanup-body" && ctx != "cleanup-action" && ctx != "cleanup-custom") {
+						case "skip-in-later-cleanup", "skip-in-earlier-cleanup":
+							// the failure is signalled in one cleanup (by a T method or by a panic), a cleanup that runs
+							// later / has run just before it skips
+							if ctx != "cleanup-body" && ctx != "cleanup-action" && ctx != "cleanup-custom" {
+								continue
+							}
+						case "body-skip":
+							// the callback that registered the falsifying cleanup ends by skipping: the cleanup still runs and still counts
+							if ctx != "cleanup-body" && ctx != "cleanup-action" && ctx != "cleanup-custom" {
 								continue
 							}
 						case "deferred-skip":
@@ -127,6 +133,17 @@ func c02Body(sp *c02Spec) func(x *X) {
 				})
 			}
 		}
+		// registered after the signalling cleanup, hence run before it
+		earlierSkip := func(t *rapid.T) {
+			if sp.variant == "skip-in-earlier-cleanup" {
+				t.Cleanup(func() {
+					if fire {
+						x.ev("earlier cleanup skips")
+						t.Skip("skip in an earlier cleanup")
+					}
+				})
+			}
+		}
 		deferredSkip := func(t *rapid.T) {
 			if sp.variant == "deferred-skip" && fire {
 				x.ev("deferred skip")
@@ -147,7 +164,11 @@ func c02Body(sp *c02Spec) func(x *X) {
 					signal(x.t, "body/cleanup")
 				}
 			})
+			earlierSkip(x.t)
 			x.draw(rapid.IntRange(0, 100).AsAny(), "v")
+			if fire && sp.variant == "body-skip" {
+				x.skip("the body skips, its cleanup will fail")
+			}
 		case "goroutine":
 			x.draw(rapid.IntRange(0, 100).AsAny(), "v")
 			if fire {
@@ -174,6 +195,11 @@ func c02Body(sp *c02Spec) func(x *X) {
 								signal(t, "action/cleanup")
 							}
 						})
+						earlierSkip(t)
+						if fire && sp.variant == "body-skip" {
+							x.ev("action skips")
+							t.Skip("the action skips, the cleanup it registered will fail")
+						}
 					}
 					if sp.ctx == "action" && fire && attempts >= sp.late {
 						defer deferredSkip(t)
@@ -205,6 +231,12 @@ func c02Body(sp *c02Spec) func(x *X) {
 				switch sp.ctx {
 				case "custom-inner":
 					if fire {
+						if sp.variant == "skip-in-cleanup" {
+							t.Cleanup(func() {
+								x.ev("custom cleanup skips")
+								t.Skip("skip inside a cleanup of the generator function")
+							})
+						}
 						defer deferredSkip(t)
 						signal(t, "custom")
 					}
@@ -219,6 +251,11 @@ func c02Body(sp *c02Spec) func(x *X) {
 							signal(t, "custom/cleanup")
 						}
 					})
+					earlierSkip(t)
+					if fire && sp.variant == "body-skip" {
+						x.ev("generator function skips")
+						t.Skip("the generator function skips, its cleanup will fail")
+					}
 				}
 				return v
 			})
